@@ -188,6 +188,8 @@ class BaseComponent(Manager):
             self.parent = self
 
         self._updateRoot(self)
+        # handlers cached while this component was a root before are stale now
+        self._cache_needs_refresh = True
         return self
 
     def _updateRoot(self, root):
